@@ -222,7 +222,7 @@ WITNESSES = [
     {"name": "doe-stores-at-other-sample", "file": DOE, "old": "        self._problem.database.store(self.samples[index], data)", "new": "        self._problem.database.store(self.samples[len(self._problem.database) - 1], data)", "expect": "13.1"},
     {"name": "cache-write-unlocked", "file": "caches/base_full_cache.py", "old": "    @synchronized\n    def cache_jacobian(", "new": "    def cache_jacobian(", "expect": "13.4"},
     {"name": "preseed-after-parallel-run", "file": DOE, "old": "                for sample in self.samples:\n                    database.store(sample, {})\n", "new": "", "expect": "13.5"},
-    {"name": "output-unbound-for-no-task", "file": CP, "old": "        output = None\n        while n_outputs != n_tasks and not stop:", "new": "        while n_outputs != n_tasks and not stop:", "expect": "13.6"},
+    {"name": "output-unbound-for-no-task", "file": CP, "old": "        stop = False\n        output = None\n", "new": "        stop = False\n", "expect": "13.6"},
 ]
 TWINS = [
     {"name": "rename-index", "file": CP, "old": "            index, output = queue_out.get()", "new": "            index, output = queue_out.get(block=True)"},
